@@ -19,6 +19,8 @@ def run(ctx):
     ctx.assumptions += ["absolute values only for M in {1,2}; for other M the laws the property states", "float32 direction vectors limit the anchor to 1e-6 relative"]
     r = tlc.run_tlc("SlicedWasserstein", workers=16, constants=dict(MaxN=4, MaxV=3) if quick else dict(MaxN=5, MaxV=3), invariants=["SortedIsOptimal", "CommonValueIrrelevant", "CostSymmetric"], heap="6g")
     ctx.model("SlicedWasserstein design lemma", r)
+    from .. import tlaps
+    tlaps.attach(ctx, "SortedExchange", "for ALL integers: uncrossing two matched pairs never increases the 1-D cost; a common translation leaves every pair cost unchanged")
     rng = ctx.rng
     embs = EXACT_EMBS[:4] + DEC_EMBS[:3]
     specs = []
